@@ -114,7 +114,7 @@ Example C06_history_nonvacuous :
   let po0 : parse_oracle := fun _ => Some [] in
   let lab0 : label_oracle := fun k => [cl k] in
   let ops := [UCreateCC (mkCCObj [99] (FOk (mkCidr V4 167772160 26)) FEmpty 4 (Some [107]) [] false 1 0 0);
-              Construct None None [UOk]; StartInformers; ProcCC UOk;
+              Construct None None [UOk] []; StartInformers; ProcCC UOk;
               UCreateNode [110;49] [] []; DeliverNode; ProcNode [POk];
               UDeleteCC [99]; DeliverCC; DeliverCC; ProcCC UOk;
               UCreateNode [110;50] [] []; DeliverNode; DeliverNode; ProcNode [POk]; ProcNode [POk]] in
